@@ -166,18 +166,30 @@ Fixpoint block_md (o : opts) (tables : list string) (b : gblock) {struct b} : st
     | x :: r => let '(s, tb1) := block_md o tb x in
                 let '(s', tb2) := go sep tb1 r in (s +++ sep +++ s', tb2)
     end in
+  (* model/graph.rs:569-590 item_to_markdown + the list arms of to_markdown (105-119): an item whose first block is a
+     paragraph without text is written from its second block on (a rule right after the marker in
+     asterisks: dashes there would read as a rule of their own); items that come out empty are
+     not written and take no number; the rest is joined *)
   let fix goi (ordered sparse : bool) (n : nat) (tb : list string) (items : list (list gblock)) {struct items}
-      : string * list string :=
+      : list string * list string :=
     match items with
-    | [] => ("", tb)
+    | [] => ([], tb)
     | it :: r =>
-        let '(s, tb1) := go (if sparse then LFS else "") tb it in
-        let s := if ordered then left_pad_and_prefix_num s n else left_pad_and_prefix s in
-        match r with
-        | [] => (s, tb1)
-        | _ => let '(s', tb2) := goi ordered sparse (S n) tb1 r in
-               (s +++ (if sparse then LFS else "") +++ s', tb2)
-        end
+        let sep := if sparse then LFS else "" in
+        let '(s, tb1) :=
+          match it with
+          | (GPlain [] | GPara []) :: GRule :: rest =>
+              match rest with
+              | [] => (srepeat "*" 72 +++ LFS, tb)
+              | _ => let '(s', tb') := go sep tb rest in (srepeat "*" 72 +++ LFS +++ sep +++ s', tb')
+              end
+          | (GPlain [] | GPara []) :: rest => go sep tb rest
+          | _ => go sep tb it
+          end in
+        if sempty s then goi ordered sparse n tb1 r
+        else
+          let '(ss, tb2) := goi ordered sparse (S n) tb1 r in
+          ((if ordered then left_pad_and_prefix_num s n else left_pad_and_prefix s) :: ss, tb2)
     end in
   match b with
   | GPlain l | GPara l => (inlines_md o l +++ LFS, tables)
@@ -190,8 +202,10 @@ Fixpoint block_md (o : opts) (tables : list string) (b : gblock) {struct b} : st
   | GQuote bs =>
       let '(s, tb) := go LFS tables bs in
       (join LFS (map (fun line => trim ("> " +++ line)) (lines s)) +++ LFS, tb)
-  | GOList items => goi true (is_sparse items) 1 tables items
-  | GBList items => goi false (is_sparse items) 1 tables items
+  | GOList items => let '(ss, tb) := goi true (is_sparse items) 1 tables items in
+                    (join (if is_sparse items then LFS else "") ss, tb)
+  | GBList items => let '(ss, tb) := goi false (is_sparse items) 1 tables items in
+                    (join (if is_sparse items then LFS else "") ss, tb)
   | GHeader level l => (srepeat "#" level +++ " " +++ inlines_md o l +++ LFS, tables)
   | GRule => (srepeat "-" 72 +++ LFS, tables)
   | GTable _ _ _ =>
